@@ -181,3 +181,222 @@ Fixpoint mism_from (i : nat) (cs : list case) : list (nat * nat) :=
                 end
   end.
 Definition mismatches (cs : list case) := mism_from 0 cs.
+
+(* ================================================================== batch part: the chunk caches (Model/CacheVec.v) *)
+(* Module Vec extends the cases above ([COld]) by two kinds; the harness' case files import it
+   (`Import C05.Vec`) so that [case], [check_case] and [mismatches] are the extended ones.
+
+   CSeq   Expression.ExecuteBatch of one statement's WHERE clause on successive chunks that share
+          ONE ExecuteCtx (what a scan's Batch does with its filter between two AdjustChunkCache
+          calls), with the cache on and -- on a second context -- off; observed per chunk: the
+          column (by content) or the error; the sequence ends at the first error.
+          Twin: Model/CacheVec.eval_seq_c (eval_batch_c threaded through the chunks).
+   CDrain ProjectionPlan.Batch (over the statement's scan node) called until it returns no rows,
+          cache on and off; observed: the batches, or the error.  [slots]: what the scan reads,
+          in order: Some pair, or None for a listed key of a point read that does not exist.
+          Twin: Model/CacheVec.drain_batch_c (scan Batch loop with chooseIdxes / AdjustChunkCache,
+          processProjectionBatch with GetChunkFieldFinalResult).
+   CVec   a CDrain and several CSeq of one statement (written once: the case files are dominated
+          by the size of the terms); the code is the worst of the parts.
+
+   [c05v_keyfix] says how the twin keys FieldChunkKeyCaches: false = by the text name-key, as
+   the pinned code did (plan.go: fmt.Sprintf("%s-%s", name, key)); true = injectively in the pair
+   (name, key), as /repo does since the fix "per-chunk field cache entries of different fields
+   could collide" (length of the name in front).  With true the cases with a '-' in a field name
+   get the spec verdict as well.
+
+   Code added: 5 = inside the premises of Properties/C05.v cache_invisible_batch /
+   vec_cache_invisible_chunks (accepted statement, pairwise different keys, names_ok) the
+   implementation's result in batch mode with the field cache on differs from its result with the
+   cache off.  1 = a twin and the implementation differ; 99 = outside the model. *)
+From Coq Require Import Ascii.
+From KV Require Import Model.EvalVec Model.ScanProj Model.CacheVec.
+
+Module Vec.
+Local Open Scope nat_scope.
+Local Open Scope list_scope.
+
+Definition old_case := case.
+Definition old_check_case := check_case.
+
+Definition c05v_keyfix : bool := true.
+
+Inductive vobs := VCol (l : list canon) | VErr (cls : nat) (pos : Z) | VPanic.
+Inductive dobs := DBatches (bs : list (list (list canon))) | DErr (cls : nat) (pos : Z) | DPanic.
+
+Inductive case :=
+  | COld (c : old_case)
+  | CSeq (names : list string) (fields : list expr) (wh : expr)
+         (chunks : list (list (bytes * bytes))) (obs_on obs_off : list vobs)
+  | CDrain (names : list string) (fields : list expr) (wh : expr) (B : nat)
+           (slots : list (option (bytes * bytes))) (obs_on obs_off : dobs)
+  (* one statement, several chunk sequences and the drain (the statement is written once) *)
+  | CVec (names : list string) (fields : list expr) (wh : expr) (B : nat)
+         (slots : list (option (bytes * bytes)))
+         (seqs : list (list (list (bytes * bytes)) * list vobs * list vobs))
+         (obs_on obs_off : dobs).
+
+Notation pvalue := (value prim_fops).
+
+(* ------------------------------------------------------------------ equality of observations *)
+
+Fixpoint canons_eqb (a b : list canon) : bool :=
+  match a, b with
+  | [], [] => true
+  | x :: a', y :: b' => canon_eqb x y && canons_eqb a' b'
+  | _, _ => false
+  end.
+
+Fixpoint rows_eqb (a b : list (list canon)) : bool :=
+  match a, b with
+  | [], [] => true
+  | x :: a', y :: b' => canons_eqb x y && rows_eqb a' b'
+  | _, _ => false
+  end.
+
+Fixpoint batches_eqb (a b : list (list (list canon))) : bool :=
+  match a, b with
+  | [], [] => true
+  | x :: a', y :: b' => rows_eqb x y && batches_eqb a' b'
+  | _, _ => false
+  end.
+
+Definition vobs_eqb (a b : vobs) : bool :=
+  match a, b with
+  | VCol x, VCol y => canons_eqb x y
+  | VErr c p, VErr c' p' => Nat.eqb c c' && (Nat.eqb c 3 || Z.eqb p p')
+  | VPanic, VPanic => true
+  | _, _ => false
+  end.
+
+Fixpoint vobss_eqb (a b : list vobs) : bool :=
+  match a, b with
+  | [], [] => true
+  | x :: a', y :: b' => vobs_eqb x y && vobss_eqb a' b'
+  | _, _ => false
+  end.
+
+Definition dobs_eqb (a b : dobs) : bool :=
+  match a, b with
+  | DBatches x, DBatches y => batches_eqb x y
+  | DErr c p, DErr c' p' => Nat.eqb c c' && (Nat.eqb c 3 || Z.eqb p p')
+  | DPanic, DPanic => true
+  | _, _ => false
+  end.
+
+Definition err_code (e : err) : nat * Z :=
+  match e with
+  | EExec p => (1, Z.of_nat p)
+  | ESyntax p => (2, Z.of_nat p)
+  | EOther => (3, 0%Z)
+  end.
+
+(* errors of class 3 carry no position *)
+Definition err_matches (e : err) (cls : nat) (pos : Z) : bool :=
+  let '(c, p) := err_code e in
+  Nat.eqb c cls && (Nat.eqb c 3 || Z.eqb p pos).
+
+(* ------------------------------------------------------------------ twin against observation *)
+
+(* 0 agree, 1 differ, 99 the twin is outside its model *)
+Definition cmp_col (r : res (list pvalue)) (o : vobs) : nat :=
+  match r with
+  | OutOfModel => 99
+  | Panic => match o with VPanic => 0 | _ => 1 end
+  | Err e => match o with VErr c p => if err_matches e c p then 0 else 1 | _ => 1 end
+  | Ok vs => match o with
+             | VCol cs => if canons_eqb (map (canon_of prim_fops) vs) cs then 0 else 1
+             | _ => 1
+             end
+  end.
+
+Fixpoint cmp_seq (rs : list (res (list pvalue))) (os : list vobs) : nat :=
+  match rs, os with
+  | [], [] => 0
+  | r :: rs', o :: os' =>
+      match cmp_col r o with
+      | 0 => cmp_seq rs' os'
+      | k => k
+      end
+  | _, _ => 1
+  end.
+
+Definition cmp_drain (r : res (list (list (list pvalue)))) (o : dobs) : nat :=
+  match r with
+  | OutOfModel => 99
+  | Panic => match o with DPanic => 0 | _ => 1 end
+  | Err e => match o with DErr c p => if err_matches e c p then 0 else 1 | _ => 1 end
+  | Ok bs => match o with
+             | DBatches bs' =>
+                 if batches_eqb (map (map (map (canon_of prim_fops))) bs) bs' then 0 else 1
+             | _ => 1
+             end
+  end.
+
+(* ------------------------------------------------------------------ the premises of the theorems, decided *)
+
+Fixpoint has_dash (s : string) : bool :=
+  match s with
+  | EmptyString => false
+  | String c s' => Ascii.eqb c "-"%char || has_dash s'
+  end.
+
+(* Proofs/CacheVecProofs.names_ok *)
+Definition names_okb (keyfix : bool) (s : stmt) : bool :=
+  keyfix || forallb (fun a => negb (has_dash a)) (s_names s).
+
+Fixpoint nodupb (l : list bytes) : bool :=
+  match l with
+  | [] => true
+  | x :: l' => negb (existsb (String.eqb x) l') && nodupb l'
+  end.
+
+Definition first_keyb (ch : list (bytes * bytes)) : bytes :=
+  match ch with kv :: _ => fst kv | [] => EmptyString end.
+
+Definition nonemptyb {A} (l : list A) : bool := match l with [] => false | _ => true end.
+
+Definition combine_codes (premise differ : bool) (a b : nat) : nat :=
+  if premise && differ then 5
+  else if Nat.eqb a 99 || Nat.eqb b 99 then 99
+  else if negb (Nat.eqb a 0 && Nat.eqb b 0) then 1
+  else 0.
+
+Definition check_seq (names : list string) (fields : list expr) (wh : expr)
+    (chunks : list (list (bytes * bytes))) (o_on o_off : list vobs) : nat :=
+  let s := Stmt names fields wh in
+  let premise := stmt_ok s && names_okb c05v_keyfix s && forallb nonemptyb chunks &&
+                 nodupb (map first_keyb chunks) in
+  let m_on := eval_seq_c prim_fops re_oom c05v_keyfix true wh chunks (ctx0 prim_fops) in
+  let m_off := eval_seq_c prim_fops re_oom c05v_keyfix false wh chunks (ctx0 prim_fops) in
+  combine_codes premise (negb (vobss_eqb o_on o_off)) (cmp_seq m_on o_on) (cmp_seq m_off o_off).
+
+Definition check_drain (names : list string) (fields : list expr) (wh : expr) (B : nat)
+    (slots : list (option (bytes * bytes))) (o_on o_off : dobs) : nat :=
+  let s := Stmt names fields wh in
+  let premise := stmt_ok s && names_okb c05v_keyfix s && nodupb (map fst (somes slots)) in
+  let m_on := drain_batch_c prim_fops re_oom c05v_keyfix true s B slots in
+  let m_off := drain_batch_c prim_fops re_oom c05v_keyfix false s B slots in
+  combine_codes premise (negb (dobs_eqb o_on o_off)) (cmp_drain m_on o_on) (cmp_drain m_off o_off).
+
+Definition check_case (c : case) : nat :=
+  match c with
+  | COld c' => old_check_case c'
+  | CSeq names fields wh chunks o_on o_off => check_seq names fields wh chunks o_on o_off
+  | CDrain names fields wh B slots o_on o_off => check_drain names fields wh B slots o_on o_off
+  | CVec names fields wh B slots seqs o_on o_off =>
+      worst (check_drain names fields wh B slots o_on o_off ::
+             map (fun q => match q with (chunks, so_on, so_off) => check_seq names fields wh chunks so_on so_off end) seqs)
+  end.
+
+Fixpoint mism_from (i : nat) (cs : list case) : list (nat * nat) :=
+  match cs with
+  | [] => []
+  | c :: cs' => match check_case c with
+                | 0 => mism_from (S i) cs'
+                | k => (i, k) :: mism_from (S i) cs'
+                end
+  end.
+Definition mismatches (cs : list case) := mism_from 0 cs.
+
+End Vec.
